@@ -43,6 +43,11 @@ impl OutputFormat for Ascii {
             pos.x = 0;
             pos.y += 1;
         }
+        if result.starts_with(&[0xEF, 0xBB, 0xBF]) {
+            // a CP437 file that starts with the three characters of a UTF-8 byte order mark would be loaded as UTF-8.
+            // The format has no codes, NUL is the only byte the ASCII parser prints nothing for.
+            result.insert(0, 0);
+        }
 
         if options.save_sauce {
             buf.write_sauce_info(crate::SauceFileType::Ascii, &mut result)?;
